@@ -222,6 +222,48 @@ func ruleR19_2(c *Check) {
 	symB := func(e ast.Expr) bool { id, ok := e.(*ast.Ident); return ok && w.Use(id) == types.Object(nBytes) }
 	aA, bA, okA := w.linear(fb, allocArg, symB, 0)
 	r.Check(okA && aA == 1 && bA == 1, fb, "filter length is nBytes+1", allocArg, "allocation size is not nBytes+1")
+	// the probe count stored in the filter is the number of probes the builder set: the variable
+	// stored at index nBytes bounds the bit-setting loop, and it is not changed once that loop started
+	var kVar *types.Var
+	fb.walk(func(x ast.Node) bool {
+		as, ok := x.(*ast.AssignStmt)
+		if !ok || len(as.Lhs) != 1 || len(as.Rhs) != 1 {
+			return true
+		}
+		ix, ok := unparen(as.Lhs[0]).(*ast.IndexExpr)
+		if !ok || !symB(unparen(ix.Index)) {
+			return true
+		}
+		ast.Inspect(as.Rhs[0], func(n ast.Node) bool {
+			if id, ok := n.(*ast.Ident); ok {
+				if v, ok := w.Use(id).(*types.Var); ok && !v.IsField() && v != nBytes {
+					kVar = v
+				}
+			}
+			return true
+		})
+		return true
+	})
+	if kVar == nil {
+		r.Check(false, fb, "probe count stored at index nBytes", nil, "appendFilter does not store the probe count in the filter's last byte")
+	} else {
+		var loops []ast.Node
+		fb.walk(func(x ast.Node) bool {
+			if fs, ok := x.(*ast.ForStmt); ok && fs.Cond != nil && w.mentions(fs.Cond, kVar) {
+				loops = append(loops, fs)
+			}
+			return true
+		})
+		r.Check(len(loops) >= 1, fb, "the stored probe count bounds the bit-setting loop", nil, "no loop in appendFilter is bounded by the probe count that is stored")
+		for _, l := range loops {
+			for _, s := range fb.Sites(selStoreVar(kVar)) {
+				if s.Pos() > l.Pos() {
+					r.Check(false, fb, "probe count fixed before the bits are set", s, "the probe count is changed after (or inside) the loop that sets the bits: the prober will test bits the builder never set, and report added keys as absent")
+				}
+			}
+		}
+		r.Check(true, fb, "probe count: stores examined against the bit-setting loop", nil, "")
+	}
 	// builder modulus: last assignment to nbits
 	aN, bN, okN := w.linear(fb, ast.NewIdent("_"), symB, 99)
 	_ = aN
@@ -467,6 +509,7 @@ func propC19(c *Check) {
 	ruleR19_2(c)
 	ruleR19_3(c)
 	ruleR19_4(c)
+	ruleR18_5(c) // every entry's key hash is recorded (unconditionally) and given to the filter
 }
 
 // ---- C20 / C16 codecs ----
@@ -1416,6 +1459,7 @@ func propC21(c *Check) {
 	ruleR21_2(c)
 	ruleR21_3(c)
 	ruleR21_4(c)
+	ruleR18_6(c) // the seeks of the inputs (table and concat iterators) land on the right side
 }
 
 func constInt64(c *types.Const) (int64, bool) {
